@@ -55,8 +55,10 @@ Proof.
 Qed.
 
 (* ---- hypotheses on the steering items of the written ~Version / ~Well sections ------------------ *)
-(* DLM: none, or one that says SPACE (the writer writes whatever DLM item the file has; the
-   written data are space separated) *)
+(* DLM: no item in the name class of DLM (as the reader compares names), or one that says SPACE.
+   (The writer sets the value of the item whose SESSION mnemonic is DLM to SPACE in the written
+   copy of ~Version; when that item is the one of the name class the hypothesis holds by
+   construction; two or more DLM items are outside the statement.) *)
 Definition dlm_ok (c : mcase) (hs : hdr_sections) : Prop :=
   match filter (in_class c (s2l "DLM")) (hs_vers_items hs) with
   | [] => True
